@@ -303,6 +303,16 @@ class CoroMachine(io.IoMachine):
             self._live[key] = mir.liveness(body)
         return self._live[key]
 
+    def coroutine_key(self, key):
+        """the exported coroutine a closure value denotes (a generic free `async fn` prints its type arguments in the value's key
+        but not in its definition path)"""
+        if key in self.prog.coroutines:
+            return key
+        import re
+        strip = lambda k: re.sub(r'::<[^{}]*?>(?=::)', '', k)
+        c = [k for k in self.prog.coroutines if strip(k) == strip(key)]
+        return c[0] if len(c) == 1 else None
+
     # -- helper futures ------------------------------------------------------------------
     def call_fn(self, cfg, fr, f, args, dest, ret_bb, t):
         n = f.get('rpath') or f.get('path') or ''
@@ -314,11 +324,12 @@ class CoroMachine(io.IoMachine):
                     fut = fut.fields[0]
                 if isinstance(fut, Ref):
                     fut = self.read_path(cfg.st, fut.key, fut.path)
-            if isinstance(fut, Clo) and fut.key in self.prog.coroutines and fut.key not in self.summarised:
-                inst = io.coroutine_inst(self.prog, fut.key)
+            ckey = self.coroutine_key(fut.key) if isinstance(fut, Clo) else None
+            if ckey is not None and ckey not in self.summarised:
+                inst = io.coroutine_inst(self.prog, ckey)
                 if inst is not None:
-                    self.inlined.add(fut.key)
-                    io.ev(cfg.st, 'ENTER', fut.key.split('::')[-2])
+                    self.inlined.add(ckey)
+                    io.ev(cfg.st, 'ENTER', ckey.split('::')[-2])
                     return self.push(cfg, inst, [Tup(fut.caps), Atom('resume')], dest, ret_bb, post=lambda m, c, v: io.ready(v))
         return io.IoMachine.call_fn(self, cfg, fr, f, args, dest, ret_bb, t)
 
